@@ -1,4 +1,5 @@
 """C17 — Measurement helpers sample on the documented cadence and report true averages."""
+from checks import pure_fns
 LEAN_TARGETS = ["QmcProps.C17", "drv_c17"]
 BINS = ["c17"]
 
@@ -41,6 +42,7 @@ RULE = ("measure: every T in 0..60 (130 thorough) x sampling period none,1..12 (
 
 
 def main(ck):
+    pure_fns.run(ck)   # source->Lean translation of pure functions, re-proved equal to the hand model
     if ck.lake_build(LEAN_TARGETS):
         ck.audit("QmcProps.C17", ["Qmc.C17." + t for t in THEOREMS])
     if ck.cargo_build(BINS):
